@@ -40,6 +40,9 @@ def run(ctx, tier):
                         "value argument, all of them, by equality, joined by 'and'"),
                  ("Q9", "append stores (name, value) in that order; get/get_all hand out the value (`second`) of the pair found; "
                         "to_string writes name, '=', value for every pair unconditionally and '&' only between pairs"),
+                 ("Q10", "the sort comparator's UTF-8 -> UTF-16 decoder uses the constants of the two encodings (lead-byte ranges, "
+                         "payload masks, shifts, 0x10000, 0xD800, 0xDC00, 0x3FF)"),
+                 ("Q11", "the three iterators hand out name, value and pair respectively, and stop exactly at the end of the list"),
                  ("Q5", "form-urlencoded decoder: a byte is copied verbatim only after it was tested not to be '+', and ' ' is written only for '+'")):
         ctx.rule(r, t)
     cfgs = C.configs_for(tier, thorough=["release", "devchecks", "amalgamated", "nopattern"])
@@ -368,8 +371,67 @@ def check_pair_roles(ctx, fx):
     ctx.floor("Q9", n, 5, "pair-role obligations")
 
 
+# UTF-8 (RFC 3629) lead-byte boundaries and payload masks, UTF-16 (RFC 2781) surrogate arithmetic
+UTF_CONSTANTS = {0x7F, 0xDF, 0xEF, 0xF7, 0x1F, 0x0F, 0x07, 0x3F, 6, 12, 18, 0x10000, 0xD800, 0xDC00, 10, 0x3FF, 2, 3, 4}
+
+
+def check_comparator_constants(ctx, fx):
+    """Q10.  Both copies of the comparator's decoder could be changed alike (Q2 compares them with each other)."""
+    lam = [g for g in fx.functions if g.get("lambda") and "url_search_params::sort" in g["key"]]
+    if len(lam) != 1:
+        ctx.broken("Q10: comparator lambda of url_search_params::sort not found (%d)" % len(lam))
+    got = {nd["v"] for nd, st, b in C.all_nodes(lam[0])
+           if nd.get("k") == "lit" and not nd.get("str") and not nd.get("chr") and isinstance(nd.get("v"), int)
+           and not isinstance(nd.get("v"), bool) and nd["v"] >= 2}
+    miss, extra = sorted(UTF_CONSTANTS - got), sorted(got - UTF_CONSTANTS)
+    ctx.check("Q10", "sort comparator: UTF-8 / UTF-16 constants", not miss and not extra,
+              " ".join(hex(x) if x > 9 else str(x) for x in sorted(got)),
+              "the comparator's decoder uses the constants {%s}%s%s: lead bytes end at 0x7F/0xDF/0xEF/0xF7, payload masks are "
+              "0x1F/0x0F/0x07/0x3F, shifts 6/12/18, and a supplementary code point c becomes 0xD800 + ((c - 0x10000) >> 10), "
+              "0xDC00 + ((c - 0x10000) & 0x3FF)" % (
+                  " ".join(hex(x) for x in sorted(got)),
+                  "; missing %s" % " ".join(hex(x) for x in miss) if miss else "",
+                  "; unexpected %s" % " ".join(hex(x) for x in extra) if extra else ""),
+              where=lam[0]["loc"].replace("/repo/", ""))
+    ctx.floor("Q10", 1, 1, "comparator decoders")
+
+
+def check_iterators(ctx, fx):
+    """Q11."""
+    n = 0
+    want = {"KEYS": "first", "VALUES": "second", "ENTRIES": None}
+    for f in fx.functions:
+        if not (C.first_party(f) and "url_search_params_iter<" in f["key"] and f.get("blocks")):
+            continue
+        kind = [k for k in want if "::" + k + ">" in f["key"] or "iter_type::" + k in f["key"]]
+        if f["name"] == "has_next":
+            rets = [X.strip(st["e"]) for b in f["blocks"] for st in b["stmts"] if st["k"] == "return" and st.get("e") is not None]
+            ok = len(rets) == 1 and rets[0].get("k") == "bin" and rets[0].get("op") in ("<", "!=") and \
+                X.show(X.strip(rets[0]["l"])).replace("this->", "") == "pos" and \
+                X.show(X.strip(rets[0]["r"])).replace("this->", "").endswith("params.size()")
+            n += 1
+            ctx.check("Q11", "%s: pos < size" % f["key"].split("iter_type::")[-1][:30], ok, X.show(rets[0]) if rets else "",
+                      "has_next() is `%s`: the iterator is exhausted exactly when pos reaches the number of pairs"
+                      % (X.show(rets[0]) if rets else "?"), where=f["loc"].replace("/repo/", ""))
+        if f["name"] == "next" and kind:
+            outs = [X.show(st["e"]) for b in f["blocks"] for st in b["stmts"] if st["k"] == "return" and st.get("e") is not None
+                    and "nullopt" not in X.show(st["e"])]
+            member = want[kind[0]]
+            ok = len(outs) == 1 and "pos++" in outs[0] and (
+                (member is not None and ("]." + member) in outs[0]) or
+                (member is None and "].first" not in outs[0] and "].second" not in outs[0]))
+            n += 1
+            ctx.check("Q11", "%s iterator hands out %s" % (kind[0].lower(), member or "the pair"), ok, "; ".join(outs)[:80],
+                      "the %s iterator returns `%s`: it must hand out %s of params[pos] and advance by one"
+                      % (kind[0].lower(), "; ".join(outs)[:80], ("`%s`" % member) if member else "the whole pair"),
+                      where=f["loc"].replace("/repo/", ""))
+    ctx.floor("Q11", n, 6, "iterator members")
+
+
 def check(ctx, fx):
     check_decoder_copies(ctx, fx)
+    check_comparator_constants(ctx, fx)
+    check_iterators(ctx, fx)
     check_lookup_predicates(ctx, fx)
     check_pair_roles(ctx, fx)
     check_compaction_aliasing(ctx, fx)
